@@ -2,7 +2,7 @@
 (* Wide tier (Apalache, unbounded integers) for C31: the laws of DiscountProps on calls of the real
    Store::order_fee_discount_factor (program) and of the SDK copy, recorded at the real unit 10^20
    with arbitrary / boundary factors.  Flat events:
-   [a (rank discount = factors[rank]), b (referral discount), referred, ok, v, uok, uv (same rank,
+   [a (rank discount = factors[rank]), b (referral discount), referred, rank_ok (rank <= max_rank), ok, v, uok, uv (same rank,
    unreferred), sdk_ok, sdk]. *)
 EXTENDS Discount, WideData
 VARIABLES
@@ -13,16 +13,17 @@ VARIABLES
   \* @type: Set(Int);
   drift
 CInit20 == Unit = 100000000000000000000
-\* @type: ({a: Int, b: Int, referred: Bool, ok: Bool, v: Int, uok: Bool, uv: Int, sdk_ok: Bool, sdk: Int}) => Bool;
+\* @type: ({a: Int, b: Int, referred: Bool, rank_ok: Bool, ok: Bool, v: Int, uok: Bool, uv: Int, sdk_ok: Bool, sdk: Int}) => Bool;
 EvOK(e) ==
   /\ e.ok => InRange(e.v)
   /\ (e.referred /\ e.ok /\ e.uok) => e.v >= e.uv
   /\ e.ok => (IF e.referred THEN WithinUlp(e.v, e.a, e.b) ELSE e.v = e.a)
-\* @type: ({a: Int, b: Int, referred: Bool, ok: Bool, v: Int, uok: Bool, uv: Int, sdk_ok: Bool, sdk: Int}) => Bool;
+  /\ ~e.rank_ok => ~e.ok
+\* @type: ({a: Int, b: Int, referred: Bool, rank_ok: Bool, ok: Bool, v: Int, uok: Bool, uv: Int, sdk_ok: Bool, sdk: Int}) => Bool;
 EvSdk(e) == e.sdk_ok = e.ok /\ (e.ok => e.sdk = e.v)
-\* @type: ({a: Int, b: Int, referred: Bool, ok: Bool, v: Int, uok: Bool, uv: Int, sdk_ok: Bool, sdk: Int}) => Bool;
+\* @type: ({a: Int, b: Int, referred: Bool, rank_ok: Bool, ok: Bool, v: Int, uok: Bool, uv: Int, sdk_ok: Bool, sdk: Int}) => Bool;
 EvConf(e) ==
-  LET r == IF e.referred THEN Combine(e.a, e.b) ELSE Ok(e.a) IN e.ok = r.ok /\ (e.ok => e.v = r.v)
+  LET r == IF ~e.rank_ok THEN Fail ELSE IF e.referred THEN Combine(e.a, e.b) ELSE Ok(e.a) IN e.ok = r.ok /\ (e.ok => e.v = r.v)
 Init ==
   /\ bad    = {i \in DOMAIN Events : ~EvOK(Events[i])}
   /\ badSdk = {i \in DOMAIN Events : ~EvSdk(Events[i])}
